@@ -220,7 +220,7 @@ def r2_tables(ctx: Context, pl: Plumbing) -> None:
     # every file is (re)written on every path through save
     g = CFG(pl.save.node)
     for file in sorted(files_w):
-        nodes = {n for e in effects if e.file == file for n in node_for(g, e.node)}
+        nodes = {n for e in effects if e.file == file for n in node_for(g, getattr(e, "node_in_save", e.node))}
         p = g.path_avoiding(g.entry, {g.exit}, nodes)
         ctx.check(p is None, "R2.every-file", f"save_calibrator_state:writes:{file}", f"{file} is written on every path through save",
                   f"save_calibrator_state can return without writing {file} (the folder then mixes two checkpoints)", pl.save, pl.save.node, path_text(pl.save, p))
